@@ -6,7 +6,7 @@ package gen
 //   - texts are valid UTF-8 without the pair "\r\n" (the CSV reader folds CR LF inside a quoted field into LF;
 //     a lone CR, also at the start or end of a text or after a LF, is carried by all three; JSON replaces
 //     invalid UTF-8 by U+FFFD). SpiceText adds what only some of the encodings carry.
-//   - headers are nil or non-empty (gob drops an empty map), keys canonical tokens with ≥1 value,
+//   - headers are nil, empty (kept apart from nil by all three encodings) or a map of canonical token keys with ≥1 value each,
 //     values without control bytes (HTAB allowed inside) and without leading/trailing blanks
 //   - timestamps 1970…2200 at nanosecond precision, zone offsets in whole minutes
 //
@@ -121,6 +121,12 @@ func ServerHeaders(r *kit.Rng, uniq uint64) map[string][]string {
 func InterHeaders(r *kit.Rng) map[string][]string {
 	if r.Chance(0.3) {
 		return nil
+	}
+	if r.Chance(0.12) {
+		// empty, not nil (a response with a status line and no header lines): all three encodings keep it
+		// apart from nil (gob: a map of 0 entries, CSV: "DQo=" vs an empty column, JSON: {} vs null), and
+		// Result.Equal treats the two as different
+		return map[string][]string{}
 	}
 	h := map[string][]string{}
 	n := 1 + r.Pick(4)
